@@ -202,7 +202,7 @@ func (w World) Clone() World {
 }
 
 // names used for named slots and values.
-var Names = []string{"a", "b", "c", "d", "alpha", "beta", "ärger", "-"}
+var Names = []string{"a", "b", "c", "d", "alpha", "beta", "ärger", "-", "typeonly"}
 
 // Subs[:2] are the everyday subtypes; the rest are legal oddities (a case
 // variant of s1, a percent sign, an equals sign) drawn rarely.
@@ -211,6 +211,9 @@ var Subs = []string{"s1", "s2", "s3", "S1", "p%d", "k=v", "k", "t "}
 func spellName(n string, sp int) (field, tagName string) {
 	if n == "-" {
 		return "", n // a legal name that only a tag can give (it means nothing special here)
+	}
+	if n == "typeonly" {
+		return "", "typeOnly" // a name spelled like an option is still a name
 	}
 	rs := []rune(n)
 	switch sp % 3 {
